@@ -645,9 +645,6 @@ func (m *fullMon) c10Finish(call *APICall, oj, nj *execution.Job) {
 	// no task alive at the finishing write of a Job that is not being deleted
 	for _, p := range m.t.podsOfJob(string(nj.UID)) {
 		if !podTerminal(p) {
-			if fin.Result == execution.JobResultAdmissionError {
-				continue
-			}
 			rec := "not recorded in status.tasks"
 			for _, r := range nj.Status.Tasks {
 				if r.Name == p.Name {
